@@ -50,6 +50,10 @@ func c19Descriptors() []c19Desc {
 	return out
 }
 
+// All taggers are closures of ONE function literal (not inlined, so they share a code pointer
+// and differ only in what they capture) — the usual shape of user functions built by a helper.
+//
+//go:noinline
 func c19Tagger(tag string) func(interface{}) (interface{}, error) {
 	return func(v interface{}) (interface{}, error) { return []interface{}{tag, v}, nil }
 }
@@ -177,6 +181,18 @@ func firstLine(s string) string {
 	return s
 }
 
+func applyC19Mod(cfg *jsonpath.Config, how int) {
+	switch how {
+	case 0:
+		cfg.SetFilterFunction("f1", c19Tagger("f1-REPLACED"))
+	case 1:
+		cfg.SetAccessorMode()
+	default:
+		cfg.SetAggregateFunction("g1", func([]interface{}) (interface{}, error) { return "g1-REPLACED", nil })
+		cfg.SetFilterFunction("zz", c19Tagger("zz"))
+	}
+}
+
 func drawC19(rt *rapid.T) *Case {
 	descs := c19Descriptors()
 	maxOps := 10
@@ -238,6 +254,7 @@ func checkC19Ops(c *Case, st *Stats, descs []c19Desc) string {
 		desc int
 		f    func(interface{}) ([]interface{}, error)
 		cfg  *jsonpath.Config
+		mods []int // in-place modifications applied to cfg so far
 	}
 	var live []parsed
 	hist := ""
@@ -261,7 +278,7 @@ func checkC19Ops(c *Case, st *Stats, descs []c19Desc) string {
 				return fmt.Sprintf("operation %d: Parse(%q, config %d) after the history [%s] gives\n   %s\nbut as the first call of a fresh process it gives\n   %s", step, d.Path, d.Cfg, hist, got, want)
 			}
 			if f != nil {
-				live = append(live, parsed{i, f, cfg})
+				live = append(live, parsed{desc: i, f: f, cfg: cfg})
 			}
 			failed := f == nil
 			if prevCfg >= 0 && ((prevFailed && d.Cfg != prevCfg) || (prevCfg != 0 && d.Cfg == 0 && strings.Contains(d.Path, "f1"))) {
@@ -281,15 +298,7 @@ func checkC19Ops(c *Case, st *Stats, descs []c19Desc) string {
 			if p.cfg == nil {
 				continue
 			}
-			switch op.B {
-			case 0:
-				p.cfg.SetFilterFunction("f1", c19Tagger("f1-REPLACED"))
-			case 1:
-				p.cfg.SetAccessorMode()
-			default:
-				p.cfg.SetAggregateFunction("g1", func([]interface{}) (interface{}, error) { return "g1-REPLACED", nil })
-				p.cfg.SetFilterFunction("zz", c19Tagger("zz"))
-			}
+			applyC19Mod(p.cfg, op.B)
 			want, err := c19Baseline(p.desc)
 			if err != nil {
 				return "harness: baseline of descriptor failed: " + err.Error()
@@ -301,6 +310,31 @@ func checkC19Ops(c *Case, st *Stats, descs []c19Desc) string {
 			if got != want {
 				return fmt.Sprintf("operation %d: after modifying the Config it was parsed with, the function for %q (config %d) behaves\n   %s\ninstead of\n   %s", step, descs[p.desc].Path, descs[p.desc].Cfg, got, want)
 			}
+			// Parse the same path again with the Config as it is NOW: the outcome must be that of a
+			// Config freshly built with the same content (other maps, same functions), not the
+			// outcome the earlier Parse with this Config object had.
+			path := descs[p.desc].Path
+			now := func(cfg jsonpath.Config) string {
+				f, err := jsonpath.Parse(path, cfg)
+				if err != nil {
+					return "error " + reflect.TypeOf(err).String() + ": " + err.Error()
+				}
+				return "ok" + c19Behaviour(f)
+			}
+			fresh, _ := c19Config(descs[p.desc].Cfg)
+			if fresh == nil {
+				fresh = &jsonpath.Config{}
+			}
+			for _, m := range p.mods {
+				applyC19Mod(fresh, m)
+			}
+			applyC19Mod(fresh, op.B)
+			gotNow, wantNow := now(*p.cfg), now(*fresh)
+			st.Class("op:reparse-with-modified-config")
+			if gotNow != wantNow {
+				return fmt.Sprintf("operation %d: Parse(%q) with a Config modified in place gives\n   %s\nbut with an equal, freshly built Config\n   %s", step, path, gotNow, wantNow)
+			}
+			live[op.A%len(live)].mods = append(live[op.A%len(live)].mods, op.B)
 		}
 	}
 	if nontrivial {
